@@ -43,6 +43,12 @@ def scan_core():
                     and ast.unparse(sub.comparators[0]).startswith(
                         'self.data')):
                 guards.setdefault(node.name, set()).add(sub.left.value)
+            if (isinstance(sub, ast.Call)
+                    and isinstance(sub.func, ast.Attribute)
+                    and ast.unparse(sub.func.value) == 'self'
+                    and hasattr(core.AurelCore, sub.func.attr)
+                    and sub.func.attr not in ('myprint',)):
+                deps.setdefault(node.name, set()).add(sub.func.attr)
             if (isinstance(sub, ast.Subscript)
                     and isinstance(sub.slice, ast.Constant)
                     and isinstance(sub.slice.value, str)
@@ -60,6 +66,30 @@ def scan_core():
     for m, ds in deps.items():
         for d in ds:
             callers.setdefault(d, set()).add(m)
+    consumers = {}
+    for k in set(callers):
+        seen, frontier = set(), {k}
+        for _ in range(3):
+            frontier = {c for f in frontier for c in callers.get(f, ())} - seen
+            seen |= frontier
+        consumers[k] = sorted(c for c in seen if c in keys)
+    _SCAN['consumers'] = consumers
+    # keys ranked by the size of their transitive dependency closure: the
+    # "deep" keys run the most code over whatever is cached / handed out
+    clos = {}
+
+    def closure(k, stack=()):
+        if k in clos:
+            return clos[k]
+        if k in stack:
+            return set()
+        out = set()
+        for d in deps.get(k, ()):
+            out.add(d)
+            out |= closure(d, stack + (k,))
+        clos[k] = out
+        return out
+    _SCAN['deep'] = sorted(keys, key=lambda k: (-len(closure(k)), k))[:30]
     _SCAN.update({'guards': {k: sorted(v) for k, v in guards.items()},
                   'deps': {k: sorted(v) for k, v in deps.items()},
                   'callers': {k: sorted(v) for k, v in callers.items()},
@@ -243,7 +273,8 @@ def gen_config(rng, profile='C01'):
     cfg = {'cls': cls, 'fd_order': order, 'boundary': boundary,
            'param': param}
     cfg['Lambda'] = g.pick([0.0, 0.0, 0.3, -0.2])
-    cfg['tetrad'] = g.weighted([('quasi-Kinnersley', 3), ('other', 2)])
+    cfg['tetrad'] = g.weighted([('quasi-Kinnersley', 3), ('other', 2)]) \
+        if profile != 'C02' else g.pick(['quasi-Kinnersley', 'other'])
     cfg['vacuum'] = False
     variant = g.weighted([('generic', 6), ('zero_shift', 2),
                           ('betax_zero', 2)])
@@ -302,6 +333,9 @@ def gen_config(rng, profile='C01'):
             omit += ['Tdown4']
     cfg['omit'] = omit
     cfg['freeze'] = g.weighted([('freeze_data', 3), ('load_data', 1)])
+    cfg['peek'] = (g.subset(['alpha', 'gxx', 'gammadown3', 'Kdown3', 'kxx',
+                             'betaup3', 'betax', 'Tdown4', 'rho0', 'dtalpha'],
+                            0.1, 0.6) if g.chance(0.3) else [])
     # cache knobs (the fault space)
     pressure = g.weighted({'C03': [('max', 6), ('mid', 3), ('default', 1)],
                            }.get(profile, [('max', 4), ('mid', 3),
@@ -405,6 +439,10 @@ class World:
         else:
             for k, v in arrays.items():
                 rel.data[k] = v
+            # a user may look at inputs before freezing them
+            for k in cfg.get('peek', []):
+                if k in rel.data:
+                    rel[k]
             rel.freeze_data()
         return rel, arrays
 
@@ -484,7 +522,19 @@ def gen_ops(rng, cfg, profile='C01', nmax=24):
                 requested + hood), 'w': g.pick([0, 0.002, 0.1, 1, 10, 100])})
         else:
             rr = g.random()
-            if rr < 0.2 and requested:
+            last = requested[-1] if requested else None
+            cons = sc['consumers'].get(last, []) if last else []
+            dps = [d for d in sc['deps'].get(last, []) if d in keys] \
+                if last else []
+            pc = 0.35 if profile == 'C02' else 0.12
+            if (profile == 'C02' and ops and ops[-1]['op'] == 'TOUCH_ALL'
+                    and g.chance(0.5)):
+                k = g.pick([d for d in sc['deep'] if d not in SKIP_KEYS])
+            elif rr < pc and cons:
+                k = g.pick(cons)          # consumes what was just handed out
+            elif rr < pc + 0.12 and dps:
+                k = g.pick(dps)           # what the last request consumed
+            elif rr < pc + 0.3 and requested:
                 k = g.pick(requested)              # hit: refresh its age
             elif rr < 0.8 and hood:
                 k = g.pick(hood)
@@ -492,6 +542,11 @@ def gen_ops(rng, cfg, profile='C01', nmax=24):
                 k = g.pick(keys)
             ops.append({'op': 'GET', 'key': k})
             requested.append(k)
+            if profile == 'C02' and g.chance(0.35):
+                ops.append({'op': 'TOUCH_ALL'})
+    if g.chance({'C01': 0.5, 'C02': 0.3, 'C03': 0.3}.get(profile, 0.0)):
+        ops.append({'op': 'AUDIT', 'n': g.randint(4, 14),
+                    'seed': g.randrange(1 << 30)})
     return ops, foci
 
 
@@ -601,6 +656,39 @@ class Engine:
             cc0 = rel.calculation_count
             hit = op['op'] == 'GET' and op['key'] in rel.data
             cached_before = set(rel.data)
+            if op['op'] == 'TOUCH_ALL':
+                # the user looks at everything that is cached (pure hits):
+                # from now on all of it counts as handed out (C02 registry)
+                for k in sorted(rel.data):
+                    reg.add(f'cached {k!r} (handed out by TOUCH_ALL op#{opi})',
+                            rel[k])
+                self.probe('touch_all')
+                self.tr.event('touch_all', n=len(rel.data))
+                continue
+            if op['op'] == 'AUDIT':
+                # re-request a seeded sample of what is cached and compare
+                # each value with a fresh instance (cache-corruption audit)
+                import random as _r
+                ks = sorted(k for k in rel.data if k not in self.world.data
+                            and k in scan_core()['keys'])
+                _r.Random(op['seed']).shuffle(ks)
+                for k in ks[:op['n']]:
+                    if self.viol and stop_at_first:
+                        break
+                    if k not in rel.data:
+                        continue
+                    sub = {'op': 'GET', 'key': k}
+                    m['touched'] = set()
+                    try:
+                        out = ('ok', rel[k])
+                    except Exception as e:  # noqa: BLE001
+                        out = ('exc', e)
+                    self.probe('audited_cached_value')
+                    self._c01(sub, opi, f'AUDIT {k}', out, m, [])
+                    if out[0] == 'ok':
+                        reg.add(f'result of op#{opi} AUDIT {k}', out[1])
+                self.tr.event('audit', n=min(op['n'], len(ks)))
+                continue
             if op['op'] == 'SET_IMPORTANCE':
                 if op['key'] in frozen:
                     continue
